@@ -110,7 +110,8 @@ class Own:
         if callee_name in API:
             return API[callee_name]["ret"] == "new"
         if self.facts.has_func(callee_name):
-            if callee_name in BORROWED_RETURNS:
+            if callee_name in BORROWED_RETURNS \
+                    or callee_name in self.facts._lookup_like:
                 return False
             t = self.facts.func(callee_name).type or ""
             return "*" in t.split("(")[0] and ("PyObject" in t
@@ -308,7 +309,7 @@ class Own:
                     owned[full] += 1
                     dead.pop(full, None)
             elif c in API and API[c]["ret"] == "borrowed" or \
-                    c in BORROWED_RETURNS:
+                    c in BORROWED_RETURNS or c in self.facts._lookup_like:
                 if track(full, "borrowed") and c != "PyErr_Occurred":
                     weak.add(full)
                     stale.pop(full, None)
@@ -319,7 +320,8 @@ class Own:
             rv = p.outcome[1]
             if rv not in ("0", "") and rv not in IMMORTAL:
                 if (classify(rv) or rv in origin) and rv not in null:
-                    if self.fname in BORROWED_RETURNS:
+                    if self.fname in BORROWED_RETURNS \
+                            or self.fname in self.facts._lookup_like:
                         pass
                     else:
                         owned[rv] -= 1
@@ -543,7 +545,11 @@ def retry_rereads(ctx, res):
                               f"the retry fails)")
             if not seen:
                 res.oblige(True, key, "", "")
-    res.floor(1)
+    if n == 0:
+        # no retry loop around a Python-running call in this source: nothing
+        # to re-read (the self-test keeps a positive example)
+        res.instance("(no retry loop)", CREL)
+        res.oblige(True, "(no retry loop)", "", "")
 
 
 def cnorm_field(n):
@@ -626,7 +632,8 @@ def replace_order(ctx, res):
                 bc = base_call(rhs)
                 fresh = bc is not None and rhs.endswith(")") and (
                     (bc in API and API[bc]["ret"] == "new")
-                    or (facts.has_func(bc) and bc not in BORROWED_RETURNS))
+                    or (facts.has_func(bc) and bc not in BORROWED_RETURNS
+                        and bc not in facts._lookup_like))
                 stores_seen.add((lhs, line))
                 r = rel.get(lhs)
                 if r is None or r[0] > i or fresh:
